@@ -188,11 +188,11 @@ def job_thr(job):
     from mchap.application import find_snvs
 
     neartie = job[1] == "neartie"
+    payload = {"kind": "job", "job": job}
     if neartie:
         job = (job[0], (1, 2)) + tuple(job[2:])
     _, (npos, nsamp), ch, nchunk, seed, _ = job
     r = Result()
-    payload = {"kind": "job", "job": job}
     d = env.scratch_dir("c19t")
     fa = synth.write_ref(str(d))
     grid = [0, 1, 3, 10]
